@@ -156,3 +156,50 @@ func VerifC13Packetize() {
 	}
 	verifCover("C13.packetize.end")
 }
+
+// three (or four) OBUs that all carry extension headers: OBUs with different
+// temporal/spatial ids never share a packet, whatever the MTU
+func VerifC13ExtensionIDs() {
+	n := verifCase("obus", 3, verifBound("C13.extobus"))
+	var stream []byte
+	var exts []uint8
+	for i := 0; i < n; i++ {
+		t := verifU8("type") & 0x0F
+		verifAssume(t != 2)
+		verifAssume(t != 8)
+		verifAssume(t != 1) // sequence headers force a new packet anyway
+		ext := verifU8("extbyte")
+		pl := verifBytes("obu.payload", 1)
+		stream = append(stream, t<<3|0x04|0x02, ext, 1, pl[0])
+		exts = append(exts, ext)
+	}
+	mtu := verifU16("mtu")
+	verifAssume(mtu >= 2)
+	verifAssume(int(mtu) <= len(stream)+3)
+	payloads := (&AV1Payloader{}).Payload(mtu, stream)
+	for _, pl := range payloads {
+		z, w := pl[0]&0x80 != 0, int(pl[0]>>4&3)
+		off, idx := 1, 0
+		var tid, sid uint8
+		have := false
+		for off < len(pl) {
+			size := len(pl) - off
+			if w == 0 || idx < w-1 {
+				size = int(pl[off])
+				off++
+			}
+			verifAssert("C13.ext.element-in-packet", off+size <= len(pl) && size >= 1)
+			el := pl[off : off+size]
+			if !(idx == 0 && z) && el[0]&0x04 != 0 && len(el) >= 2 {
+				tt, ss := el[1]>>5, el[1]>>3&3
+				if have {
+					verifAssert("C13.ext.one-layer-per-packet", tt == tid && ss == sid)
+				}
+				tid, sid, have = tt, ss, true
+			}
+			off += size
+			idx++
+		}
+	}
+	verifCover("C13.extids.end")
+}
